@@ -11,7 +11,7 @@ pub fn prop() -> Prop {
     Prop {
         id: "C08",
         level: "exploration",
-        rule: "case = (hasher/field instance among 12; E in {base, quadratic, cubic where supported}; bound+1 = 2^3..2^12 with domain <= 2^14 (2^17 thorough); blowup 2..128; folding 2/4/8/16; remainder degree 2^r-1 <= 255; configurations with degree truncation are excluded by construction and counted; polynomial degree in {zero, 0, 1, bound/2, bound-1, bound, random}; position multiset of size 1..64 with duplicates / all equal / one coset / extremes). Sub-check prover_reuse (model-based history): ONE FriProver (fixed options) builds 2-4 proofs in a row for domains that grow, shrink or repeat (the prover documents that build_proof clears its state so that another proof can be generated); every proof must verify and be byte-identical to the proof a fresh prover builds for the same input. Oracle: FriVerifier::new + verify = Ok on the prover's proof and again on FriProof::read_from(to_bytes) through DefaultVerifierChannel. Non-trivial = at least one FRI layer, or zero layers with remainder degree = bound; distinct = hash of (instance, parameters, polynomial seed, positions).",
+        rule: "case = (hasher/field instance among 12; E in {base, quadratic, cubic where supported}; bound+1 = 2^3..2^12 with domain <= 2^14 (2^17 thorough); blowup 2..128; folding 2/4/8/16; remainder degree 2^r-1 <= 255; configurations with degree truncation are excluded by construction and counted; polynomial degree in {zero, 0, 1, bound/2, bound-1, bound, random}; position multiset of size 1..64 with duplicates / all equal / one coset / extremes). Sub-check prover_reuse (model-based history): ONE FriProver (fixed options) builds 2-4 proofs in a row for domains that grow, shrink or repeat (the prover documents that build_proof clears its state so that another proof can be generated); every proof must verify and be byte-identical to the proof a fresh prover builds for the same input. Oracle: FriVerifier::new + verify = Ok on the prover's proof and again on FriProof::read_from(to_bytes), each through DefaultVerifierChannel and through a channel that implements only the required methods of the public VerifierChannel trait. Non-trivial = at least one FRI layer, or zero layers with remainder degree = bound; distinct = hash of (instance, parameters, polynomial seed, positions).",
         assumptions: vec![
             "FRI configurations for which some folded layer would have degree+1 not divisible by the folding factor are outside the supported set (the verifier documents DegreeTruncation as a deliberate rejection, the prover cannot build such layers)",
             "evaluations are produced with fft::evaluate_poly_with_offset (C12's subject) over the offset domain the FRI options document (GENERATOR)",
@@ -72,7 +72,7 @@ fn run<X: HS, E: FieldElement<BaseField = <X::S as Spec>::B>>(s: &mut Src, rec: 
                 return Err(Fail::new(key, format!("FRI proof does not decode from its own encoding: {e} (remainder of {rem_bytes} bytes; {ctx})")));
             },
         };
-        match verify::<X, E>(&p, proof, &h.commitments, &q, &positions) {
+        match verify_all::<X, E>(&p, p.bound(), proof, &h.commitments, &q, &positions, true) {
             Verdict::Accept => {},
             Verdict::Reject(e) => return Err(Fail::new(format!("honest-fri-proof-rejected:{e:?}").split('(').next().unwrap().to_string(), format!("honest FRI proof rejected ({what}): {e} ({ctx})"))),
             Verdict::ChannelError(e) => return Err(Fail::new("honest-fri-proof-unparsable", format!("DefaultVerifierChannel::new failed on an honest proof ({what}): {e} ({ctx})"))),
@@ -169,7 +169,7 @@ fn run_reuse<X: HS, E: FieldElement<BaseField = <X::S as Spec>::B>>(s: &mut Src,
             Err(pn) => return Err(Fail::new(format!("prover-{}", pn.key()), format!("FRI prover panicked ({ctx}): {}", pn.message))),
         };
         let qv: Vec<E> = positions.iter().map(|i| evals[*i]).collect();
-        match verify::<X, E>(q, proof.clone(), &commitments, &qv, positions) {
+        match verify_all::<X, E>(q, q.bound(), proof.clone(), &commitments, &qv, positions, true) {
             Verdict::Accept => {},
             other => return Err(Fail::new("reused-prover-proof-rejected", format!("proof #{k} (domain {}) built by a reused prover is not accepted: {other:?} ({ctx})", q.domain()))),
         }
